@@ -4,6 +4,7 @@ import (
 	"bytes"
 	"fmt"
 	"math/rand"
+	"os"
 	"sort"
 	"strings"
 	"sync"
@@ -168,6 +169,9 @@ func lwwRun(c fw.Case, typ string) fw.Verdict {
 		r.Cfg.WSnapshot = 6
 		r.Checks = []func(*Runner, []*Snap, string) *Violation{oracleModel, oracleAppendOnly, oracleWriterOrder, wq.oracle, oracleSameSet}
 	}
+	if os.Getenv("VERIF_ONLY_READERS") != "" { // debugging aid: validates the reader monitor alone on a scratch break
+		r.Checks = nil
+	}
 	if err := r.Setup(); err != nil {
 		return fw.Verdict{Status: fw.Inconclusive, What: "setup: " + err.Error()}
 	}
@@ -177,9 +181,12 @@ func lwwRun(c fw.Case, typ string) fw.Verdict {
 	stopReaders := make(chan struct{})
 	var rwg sync.WaitGroup
 	var reads int64
+	var mons []*readMon
 	if c.Bool("hold") || c.Idx%3 == 0 {
 		for i := range r.Peers {
 			rwg.Add(1)
+			mon := &readMon{typ: typ, peer: i}
+			mons = append(mons, mon)
 			go func(i int) {
 				defer rwg.Done()
 				for {
@@ -191,6 +198,7 @@ func lwwRun(c fw.Case, typ string) fw.Verdict {
 					if r.Peers[i].Running() {
 						if st := r.store(i); st != nil {
 							_ = ViewOf(typ, st)
+							mon.observe(st)
 							atomic.AddInt64(&reads, 1)
 						}
 					}
@@ -203,6 +211,12 @@ func lwwRun(c fw.Case, typ string) fw.Verdict {
 	close(stopReaders)
 	rwg.Wait()
 	r.V.Count("concurrent_reader_queries", atomic.LoadInt64(&reads))
+	for _, mon := range mons {
+		r.V.Count("reader_state_changes_seen", int64(mon.Trans))
+		if vio := mon.judge(r); vio != nil && r.failed == nil {
+			r.fail(vio.Key, vio.What)
+		}
+	}
 	if r.failed == nil && !r.watchdog {
 		ih.set(false)
 		if r.Converge() {
